@@ -57,6 +57,7 @@ type VerifMaintainCachedCert struct {
 	IssuerKey string
 	Leaf      *x509.Certificate
 	Revoked   bool // cert.ocsp says Revoked
+	ARIDue    bool // the in-memory ARI of the entry carries a selected renewal time
 }
 
 // VerifMaintainCacheSnapshot returns the entries of the cache map (sorted by hash) and a copy
@@ -68,7 +69,8 @@ func VerifMaintainCacheSnapshot(c *Cache) ([]VerifMaintainCachedCert, map[string
 	for h, cert := range c.cache {
 		certs = append(certs, VerifMaintainCachedCert{Hash: h, Names: append([]string(nil), cert.Names...),
 			Managed: cert.managed, IssuerKey: cert.issuerKey, Leaf: cert.Leaf,
-			Revoked: cert.ocsp != nil && cert.ocsp.Status == ocsp.Revoked})
+			Revoked: cert.ocsp != nil && cert.ocsp.Status == ocsp.Revoked,
+			ARIDue:  !cert.ari.SelectedTime.IsZero()})
 	}
 	sort.Slice(certs, func(i, j int) bool { return certs[i].Hash < certs[j].Hash })
 	idx := make(map[string][]string, len(c.cacheIndex))
@@ -97,3 +99,19 @@ func VerifMaintainMarkRevoked(c *Cache, hash string, reason int) bool {
 
 // VerifMaintainUpdateOCSPStaples runs one OCSP maintenance pass over the cache.
 func VerifMaintainUpdateOCSPStaples(ctx context.Context, c *Cache) { c.updateOCSPStaples(ctx) }
+
+// VerifMaintainSetARISelectedTime sets the selected renewal time of the in-memory ARI of the cache
+// entry with the given hash (no window, so the entry is not queued for an ARI refresh): the cached
+// copy then counts as due from that time on, whatever the stored resource of the same certificate
+// says. It reports whether the entry exists.
+func VerifMaintainSetARISelectedTime(c *Cache, hash string, t time.Time) bool {
+	c.mu.Lock()
+	defer c.mu.Unlock()
+	cert, ok := c.cache[hash]
+	if !ok {
+		return false
+	}
+	cert.ari.SelectedTime = t
+	c.cache[hash] = cert
+	return true
+}
